@@ -226,12 +226,28 @@ func (a *AttributeExpr) Validate(ctx string, parent eval.Expression) *eval.Valid
 		}
 		for _, nat := range *o {
 			verr.Merge(a.validatePkgPath(pkgPath, nat.Attribute.Type))
+			if n := inlineUnion(nat.Attribute.Type); n != "" {
+				verr.Add(parent, inlineUnionError, ctxPrefix(ctx), "attribute "+nat.Name, n)
+			}
 			ctx = fmt.Sprintf("field %s", nat.Name)
 			verr.Merge(nat.Attribute.Validate(ctx, parent))
 		}
 	} else if ar := AsArray(a.Type); ar != nil {
 		elemType := ar.ElemType
+		if n := inlineUnion(elemType.Type); n != "" {
+			verr.Add(parent, inlineUnionError, ctxPrefix(ctx), "array element", n)
+		}
 		verr.Merge(elemType.Validate(ctx, a))
+	} else if mp := AsMap(a.Type); mp != nil {
+		for _, t := range []DataType{mp.KeyType.Type, mp.ElemType.Type} {
+			if n := inlineUnionInContainer(t); n != "" {
+				verr.Add(parent, inlineUnionError, ctxPrefix(ctx), "map key or element", n)
+			}
+		}
+		// validate the types only reachable through the map like array
+		// elements are
+		verr.Merge(mp.KeyType.Validate(ctx, a))
+		verr.Merge(mp.ElemType.Validate(ctx, a))
 	} else if u := AsUnion(a.Type); u != nil {
 		for _, ut := range u.Values {
 			verr.Merge(ut.Attribute.Validate(ctx, parent))
@@ -267,6 +283,51 @@ func (a *AttributeExpr) Validate(ctx string, parent eval.Expression) *eval.Valid
 	}
 
 	return verr
+}
+
+// inlineUnionError is the format of the error reported for unions defined in
+// nested inline objects.
+const inlineUnionError = "%s%s is an inline object that defines the OneOf attribute %q: the Go type of such an object cannot be referred to outside of the service package, define the object with Type instead"
+
+// ctxPrefix returns ctx followed by the separator used in error messages if
+// not empty and not already present.
+func ctxPrefix(ctx string) string {
+	if ctx == "" || strings.HasSuffix(ctx, " - ") {
+		return ctx
+	}
+	return ctx + " - "
+}
+
+// inlineUnion returns the name of the first union attribute defined directly
+// in t if t is an inline object, the empty string otherwise.
+func inlineUnion(t DataType) string {
+	o, ok := t.(*Object)
+	if !ok {
+		return ""
+	}
+	for _, nat := range *o {
+		if _, ok := nat.Attribute.Type.(*Union); ok {
+			return nat.Name
+		}
+	}
+	return ""
+}
+
+// inlineUnionInContainer is inlineUnion applied to t or to the inline objects
+// that t - an inline array or map - contains.
+func inlineUnionInContainer(t DataType) string {
+	switch actual := t.(type) {
+	case *Object:
+		return inlineUnion(actual)
+	case *Array:
+		return inlineUnionInContainer(actual.ElemType.Type)
+	case *Map:
+		if n := inlineUnionInContainer(actual.KeyType.Type); n != "" {
+			return n
+		}
+		return inlineUnionInContainer(actual.ElemType.Type)
+	}
+	return ""
 }
 
 func (a *AttributeExpr) validatePkgPath(pkgPath string, t DataType) *eval.ValidationErrors {
